@@ -312,7 +312,7 @@ func (fs *FS) Rename(oldname, newname string) error {
 		if err != nil {
 			_ = txn.Abort()
 		} else {
-			_, err = txn.Commit(context.Background())
+			err = commitErr(txn.Commit(context.Background()))
 		}
 		return err
 	}
